@@ -145,6 +145,19 @@ def check(repo):
             isinstance(t, ast.Attribute) for t in (st.targets if isinstance(st, ast.Assign) else [st.target]))]
         r3.require(not bad and not stores, fi, "no hidden inputs or state in %s" % fi.name, "%s reads %s / stores attributes: output no longer depends only on (key, message)" % (fi.qual, bad))
         r3.require(not any(x in d for d in fi.decorators for x in ("cache",)), fi, "not memoised", "%s is memoised" % fi.qual)
+    # inputs are used as given: parameters are never rebound (a pre-hashed key or a normalised message changes the function)
+    for fi in (p, call, ce, hc):
+        rebound = []
+        for st in ast.walk(fi.node):
+            tg = st.targets if isinstance(st, ast.Assign) else ([st.target] if isinstance(st, (ast.AugAssign, ast.AnnAssign)) else [])
+            for t in tg:
+                for nm in ast.walk(t):
+                    if isinstance(nm, ast.Name) and nm.id in fi.params and nm.id not in ("self",) and isinstance(nm.ctx, ast.Store):
+                        rebound.append((nm.id, st))
+        keep = [(n_, st) for n_, st in rebound if n_ in fi.params[:2] or n_ in ("key", "message")]
+        r3.require(not keep, fi, "inputs used as given in %s" % fi.name,
+                   "%s rebinds its input %s (%s): the value fed to the MAC/hash is no longer the caller's" % (fi.qual, keep[0][0] if keep else "", short(keep[0][1]) if keep else ""),
+                   keep[0][1] if keep else None)
     # both inputs reach the MAC
     uses = unparse(p.node)
     r3.require("hash_func(key, a + message)" in uses and "hash_func(key, message)" in uses and "hash_func(key, a)" in uses, p, "key and message in every MAC", "_tls_p_hash: a MAC call no longer binds both key and message/chain value")
@@ -176,5 +189,6 @@ VARIANTS = [
     V("prf-salted-with-time", "fire", "R16.3", [(PRF, "_tls_p_hash", "    res = b\"\"\n", "    import time\n    res = b\"\"\n    message = message + str(time.time()).encode()\n")]),
     V("prf-message-guard-dropped", "fire", "R16.5", [(PRF, "HmacPRF.__call__",
       "        if self.message_length != LENGTH_UNLIMITED and len(\n                message) != self.message_length:\n            raise ValueError(\n                \"The message length of the PRF does not meet the definition\")\n", "")]),
+    V("key-prehashed-at-block-size", "fire", "R16.3", [(PRF, "_tls_p_hash", "    res = b\"\"\n", "    if len(key) >= 64:\n        key = hashlib.new(hash_func_name, key).digest()\n    res = b\"\"\n")]),
     V("benign-ceil-form", "silent", None, [(PRF, "_tls_p_hash", "n = (output_len + hash_len - 1) // hash_len", "import math\n    n = math.ceil(output_len / hash_len)")]),
 ]
